@@ -143,6 +143,21 @@ def scn_full(ctx):
     ctx.log(f"config {desc} clock={T0:.0f}")
     target = desc["mode"] == "Target"
     opt, rad = desc["optical"], desc["radio"]
+    if desc.get("want_all_decays_outside_optical_window"):
+        # directed scenario: survivors exist but none decays inside the 0-20 km optical window.
+        # The generator seed is searched (bounded, deterministic) with both channels off, which
+        # is cheap and draws the same random numbers up to the decay stage.
+        probe_cfg = _set_channels(cfg, False, False)
+        for j in range(150):
+            stp, tp, _ = run_compute(probe_cfg, s + j, T0)
+            if stp == "ok" and len(tp) > 0 and "altDec" in tp.colnames:
+                a = np.asarray(tp["altDec"])
+                if ((a < 0) | (a > 20)).all():
+                    s = s + j
+                    desc["rng_seed"] = s
+                    ctx.probes["survivors_all_outside_optical_window"] += 1
+                    break
+        ctx.log(f"directed: seed {s} (searched {j + 1})")
 
     st, R0, reads = run_compute(cfg, s, T0)
     # survivors according to the geometry stage itself, same random numbers
